@@ -58,22 +58,22 @@ func buildExprs(exprs []Expression, builder Builder, joinCond string) {
 				if len(v.Exprs) == 1 {
 					if e, ok := v.Exprs[0].(Expr); ok {
 						sql := strings.ToUpper(e.SQL)
-						wrapInParentheses = strings.Contains(sql, AndWithSpace) || strings.Contains(sql, OrWithSpace)
+						wrapInParentheses = containsAndOr(sql)
 					}
 				}
 			case AndConditions:
 				if len(v.Exprs) == 1 {
 					if e, ok := v.Exprs[0].(Expr); ok {
 						sql := strings.ToUpper(e.SQL)
-						wrapInParentheses = strings.Contains(sql, AndWithSpace) || strings.Contains(sql, OrWithSpace)
+						wrapInParentheses = containsAndOr(sql)
 					}
 				}
 			case Expr:
 				sql := strings.ToUpper(v.SQL)
-				wrapInParentheses = strings.Contains(sql, AndWithSpace) || strings.Contains(sql, OrWithSpace)
+				wrapInParentheses = containsAndOr(sql)
 			case NamedExpr:
 				sql := strings.ToUpper(v.SQL)
-				wrapInParentheses = strings.Contains(sql, AndWithSpace) || strings.Contains(sql, OrWithSpace)
+				wrapInParentheses = containsAndOr(sql)
 			}
 		}
 
@@ -86,6 +86,28 @@ func buildExprs(exprs []Expression, builder Builder, joinCond string) {
 			expr.Build(builder)
 		}
 	}
+}
+
+// containsAndOr reports whether the upper-cased SQL contains an AND / OR connective delimited by
+// whitespace or parentheses (space, tab, newline, "(" or ")"), e.g. "a = 1\nOR b = 2"
+func containsAndOr(sql string) bool {
+	isLeft := func(c byte) bool { return c == ' ' || c == '\t' || c == '\n' || c == '\r' || c == ')' }
+	isRight := func(c byte) bool { return c == ' ' || c == '\t' || c == '\n' || c == '\r' || c == '(' }
+	for _, word := range [...]string{"AND", "OR"} {
+		for from := 0; ; {
+			idx := strings.Index(sql[from:], word)
+			if idx < 0 {
+				break
+			}
+			idx += from
+			end := idx + len(word)
+			if idx > 0 && end < len(sql) && isLeft(sql[idx-1]) && isRight(sql[end]) {
+				return true
+			}
+			from = idx + 1
+		}
+	}
+	return false
 }
 
 // MergeClause merge where clauses
@@ -191,7 +213,7 @@ func (not NotConditions) Build(builder Builder) {
 				e, wrapInParentheses := c.(Expr)
 				if wrapInParentheses {
 					sql := strings.ToUpper(e.SQL)
-					if wrapInParentheses = strings.Contains(sql, AndWithSpace) || strings.Contains(sql, OrWithSpace); wrapInParentheses {
+					if wrapInParentheses = containsAndOr(sql); wrapInParentheses {
 						builder.WriteByte('(')
 					}
 				}
@@ -226,7 +248,7 @@ func (not NotConditions) Build(builder Builder) {
 			e, wrapInParentheses := c.(Expr)
 			if wrapInParentheses {
 				sql := strings.ToUpper(e.SQL)
-				if wrapInParentheses = strings.Contains(sql, AndWithSpace) || strings.Contains(sql, OrWithSpace); wrapInParentheses {
+				if wrapInParentheses = containsAndOr(sql); wrapInParentheses {
 					builder.WriteByte('(')
 				}
 			}
